@@ -100,7 +100,12 @@ def pdb(p):
 
 # ------------------------------------------------------------------ events
 PAIRING_NAMES = ("A", "B", "C", "D", "E", "F")
-OPS = ("plain", "populate", "update", "restart", "setkey")     # writers of the state number other than an accepted broadcast
+OPS = ("plain", "populate", "update", "restart", "setkey", "evt_begin", "evt_end")
+MAX_GSN = 65535
+
+
+def rolls(g):
+    return g + 1 >= MAX_GSN     # writers of the state number other than an accepted broadcast
 UNKNOWN_ADDR = "AA:BB:CC:00:00:01"
 
 
@@ -129,7 +134,7 @@ def ev_raw(to, payload, label, **mods):
 
 def realise(ev):
     """-> (apple manufacturer data bytes or None, sealed-intact?)"""
-    if ev["k"] in ("noapple", "populate", "update", "restart", "setkey"):
+    if ev["k"] in ("noapple", "populate", "update", "restart", "setkey", "evt_begin", "evt_end"):
         return None, False
     if ev["k"] == "plain":
         # type 0x06 | stl | sf | id(6) | acid(2) | gsn(2) | cn | cv | setup hash(4)
@@ -179,6 +184,10 @@ def symbolic(world, ev, plain_sns, curkeys=None):
         return "X"
     if ev["k"] == "setkey":
         return "K:%s:%d" % (ev["to"], KEYNUM[ev["key"]])
+    if ev["k"] == "evt_begin":
+        return "EB:%s:%d" % (ev["to"], ev["g"])
+    if ev["k"] == "evt_end":
+        return "EE:%s:%d:%s" % (ev["to"], ev["g"], "fail" if ev["req"] == "fail" else KEYNUM[ev["key"]])
     data, intact = realise(ev)
     if data is None:
         return "A:-:E"
@@ -215,10 +224,13 @@ def model_line(world, events):
     for e in events:
         if e["k"] in ("plain", "populate", "update"):
             plain_sns.setdefault(e["to"], []).append(e["sn"])
+        if e["k"] == "evt_begin":
+            plain_sns.setdefault(e["to"], []).extend([e["g"], 1])
     curkeys = {}
     for e in events:
         toks.append(symbolic(world, e, plain_sns, curkeys))
-        if e["k"] == "setkey" and any(p["id"] == e["to"] and p["db"] == "1" for p in world):
+        if (e["k"] == "setkey" or (e["k"] == "evt_end" and rolls(e["g"]) and e["req"] != "fail")) \
+                and any(p["id"] == e["to"] and p["db"] == "1" for p in world):
             curkeys[e["to"]] = e["key"]
     return " ".join(toks)
 
@@ -283,6 +295,75 @@ def _load_pairings(ctl, world, calls, fallbacks):
     return pairings
 
 
+class _FakeGatt:
+    """just enough of the GATT client for BlePairing._async_start_notify"""
+    is_connected = True
+
+    def __init__(self):
+        self.notify_callback = None
+
+    async def get_characteristic(self, *args):
+        return object()
+
+    async def start_notify(self, endpoint, callback):
+        self.notify_callback = callback
+
+
+async def _settle():
+    import asyncio
+    for _ in range(12):
+        await asyncio.sleep(0)
+
+
+async def _impl_event(ev, world, pairings, pending):
+    """the first connected (GATT) event of a session through the REAL handler registered by _async_start_notify;
+    faked: the GATT client, reading the characteristic, the protocol parameters (the accessory's GSN g) and the
+    'generate broadcast key' request, which suspends until evt_end and then succeeds / raises as the event says"""
+    import asyncio
+    from unittest.mock import AsyncMock
+    from aiohomekit.controller.ble.client import PDUStatusError
+    from aiohomekit.controller.ble.structs import ProtocolParams
+    from aiohomekit.crypto.hkdf import hkdf_derive
+    from aiohomekit.exceptions import AccessoryDisconnectedError
+    from aiohomekit.pdu import PDUStatus
+    idx = next(i for i, p in enumerate(world) if p["id"] == ev["to"])
+    pr = pairings[idx]
+    if ev["k"] == "evt_begin":
+        client = _FakeGatt()
+        release = asyncio.Event()
+        secret = SECRETS[ev["key"]]
+        mode = ev["req"]
+
+        async def key_request(*a, **kw):
+            await release.wait()
+            if mode == "fail":
+                raise AccessoryDisconnectedError("accessory disconnected")
+            if mode == "pdu":
+                raise PDUStatusError(PDUStatus.INVALID_REQUEST, "refused")
+            return b""
+        pr.client = client
+        pr._encryption_key = object()           # a verified session exists
+        pr._derive = lambda salt, info, length=32: hkdf_derive(secret, salt, info, length=length)
+        pr._get_characteristics_while_connected = AsyncMock(return_value={})
+        pr._get_all_protocol_params = AsyncMock(return_value=ProtocolParams(
+            state_number=ev["g"], config_number=1, advertising_id=bytes.fromhex(ev["to"]), broadcast_key=None))
+        pr._async_request_under_lock = key_request
+        async with pr._operation_lock:
+            await pr._async_start_notify(11)
+        client.notify_callback(0, b"")          # the accessory indicates "something changed"
+        await _settle()
+        pending[ev["to"]] = (release, client)
+    else:
+        release, client = pending.pop(ev["to"])
+        release.set()
+        await _settle()
+        client.is_connected = False
+        pr._async_reset_connection_state()
+        pr.client = None
+        pr._derive = None
+        del pr._get_characteristics_while_connected, pr._get_all_protocol_params, pr._async_request_under_lock
+
+
 async def _impl_op(ev, world, pairings):
     """the other writers of the state number, driven through the real methods with only the GATT round trips faked"""
     from unittest.mock import AsyncMock
@@ -338,6 +419,7 @@ async def _impl_async(world, events):
                                              KEYS[p["key"]].hex() if p["key"] else None, p["sn"])
     pairings = _load_pairings(ctl, world, calls, fallbacks)
     steps = []
+    pending = {}
     for ev in events:
         del calls[:]
         fb0 = fallbacks[0]
@@ -350,6 +432,8 @@ async def _impl_async(world, events):
                 pairings = _load_pairings(ctl, world, calls, fallbacks)
             elif ev["k"] in ("populate", "update", "setkey"):
                 await _impl_op(ev, world, pairings)
+            elif ev["k"] in ("evt_begin", "evt_end"):
+                await _impl_event(ev, world, pairings, pending)
             else:
                 data, _ = realise(ev)
                 mfr = {} if data is None else {76: data}
@@ -357,6 +441,8 @@ async def _impl_async(world, events):
                     mfr = {0x0006: b"\x11\x36" + bytes(22)}
                 ctl._device_detected(_mk_device(addr_of(ev.get("addr") or "U")), _mk_adv(mfr))
         except Exception as e:  # noqa
+            if ev["k"] in OPS:
+                raise               # an operation of the harness itself failed (e.g. a shrunk history without its begin)
             exc = EXC.get(type(e).__name__, "exc:" + type(e).__name__)
         await asyncio.sleep(0)
         await asyncio.sleep(0)
@@ -369,6 +455,9 @@ async def _impl_async(world, events):
         fbn = fallbacks[0] - fb0
         fbbit = 1 if (fbn > 0 and ev["k"] not in OPS) else 0      # ops: the poll a regular advertisement triggers is not C18's
         steps.append(("%s|%s|%s|%d" % (exc, "+".join(cl) or "-", sns, fbbit), fbn))
+    for release, _client in pending.values():
+        release.set()
+    await _settle()
     for pr in pairings:
         pr._shutdown = True
     return steps
@@ -434,6 +523,7 @@ def oracle_history(world, events, steps, check_monotone=True):
     """-> list of (key, what, step index).  steps: canonical implementation step strings."""
     out = []
     sns = [p["sn"] if (p["cache"] and p["sn"]) else None for p in world]
+    psns = [p["sn"] if p["cache"] else None for p in world]     # the persisted copy (an accepted broadcast does not write it)
     keys = [p["key"] for p in world]          # the key each accessory currently broadcasts under
     for idx, (ev, st) in enumerate(zip(events, steps)):
         if st.startswith("harness-exc"):
@@ -441,11 +531,33 @@ def oracle_history(world, events, steps, check_monotone=True):
             break
         exc, calls, after = parse_step(st)
         if ev["k"] in OPS:
-            if ev["k"] == "setkey":
-                for i, p in enumerate(world):
-                    if p["id"] == ev["to"] and p["db"] == "1":      # generation needs the service-signature characteristic
-                        keys[i] = ev["key"]
-            sns = after
+            # the other writers of the number / the key: the oracle keeps its OWN books (it does not adopt what the
+            # implementation stores), so that a wrong write shows up as a concrete accepted replay afterwards
+            sns = list(sns)
+            for i, p in enumerate(world):
+                if ev["k"] == "restart":
+                    sns[i] = psns[i] if psns[i] else None
+                    continue
+                if p["id"] != ev["to"]:
+                    continue
+                k = ev["k"]
+                if k == "plain":
+                    sns[i] = psns[i] = ev["sn"] & 0xFFFF
+                elif k == "populate" and sns[i] is not None:
+                    sns[i] = ev["sn"]
+                elif k == "update" and sns[i] is not None:
+                    sns[i] = psns[i] = ev["sn"]
+                elif k == "setkey" and p["db"] == "1":       # generation needs the service-signature characteristic
+                    keys[i] = ev["key"]
+                elif k == "evt_begin" and sns[i] is not None:
+                    sns[i] = psns[i] = ev["g"] if rolls(ev["g"]) else ev["g"] + 1
+                elif k == "evt_end" and rolls(ev["g"]) and ev["req"] != "fail" and sns[i] is not None:
+                    if p["db"] == "1":
+                        keys[i] = ev["key"]                 # key first ...
+                    sns[i] = psns[i] = 1                    # ... then the number
+            if after != sns:
+                out.append(("number-writer-diverged:" + ev["k"],
+                            "after operation #%d (%s) the implementation stores %s, expected %s" % (idx, ev["k"], after, sns), idx))
             continue
         if exc != "ok":
             out.append(("notification-raised:" + exc, "advertisement #%d (%s): %s escaped from the scanner callback"
@@ -812,6 +924,45 @@ def gen_keys(tier):
     return hs
 
 
+def ev_event(to, g, req="ok", key="R1"):
+    """(begin, end) of the first connected GATT event of a session; the accessory's GSN is g; req = what becomes of
+    the 'generate broadcast key' request of a roll-over: ok / fail (accessory disconnects) / pdu (refused, only logged)"""
+    b = dict(k="evt_begin", to=IDS[to], g=g, req=req, key=key, label="connected-event-begin")
+    e = dict(k="evt_end", to=IDS[to], g=g, req=req, key=key, label="connected-event-end:" + req)
+    return b, e
+
+
+def gen_events(tier):
+    """the connected-event callback (_async_start_notify's handler) on the live pairing, with advertisements
+    delivered while the roll-over's key request is in flight, after it failed, and after it completed"""
+    hs = []
+
+    def old(n, key="A"):
+        return genuine("A", n, label="old-epoch-replay", key=key)
+    for s in ([65500, 20] if tier == "quick" else [65500, 65533, 65534, 20, 4095]):
+        for g in (65534, 65535):
+            for req in ("ok", "fail", "pdu"):
+                b, e = ev_event("A", g, req, "R1")
+                newkey = "A" if req == "fail" else "R1"
+                tail = [old(5), old(2), genuine("A", 2, key=newkey, label="new-epoch" if req != "fail" else "old-epoch-replay"),
+                        genuine("A", 2, key=newkey, label="replay-current"), old(3)]
+                hs.append((mk_world(s, 300), [genuine("A", s + 1), b, old(5), old(2), old(100), old(g), e] + tail,
+                           "event:rollover-" + req))
+                hs.append((mk_world(s, 300), [b, e] + tail + [RESTART, old(5), genuine("A", 3, key=newkey, label="after-restart")],
+                           "event:rollover-%s-no-interleaving" % req))
+            # a failed roll-over, then the next session succeeds
+            b1, e1 = ev_event("A", g, "fail", "R1")
+            b2, e2 = ev_event("A", g, "ok", "R2")
+            hs.append((mk_world(s, 300), [b1, old(5), e1, old(5), b2, old(5), e2, old(5), genuine("A", 2, key="R2", label="new-epoch")],
+                       "event:rollover-fail-then-ok"))
+        # no roll-over: number := g + 1 at once, key untouched
+        for g in (s, s + 7, 65533):
+            b, e = ev_event("A", g, "ok", "R1")
+            hs.append((mk_world(s, 300), [b, genuine("A", g + 1, label="replay-current"), genuine("A", g + 2), e,
+                                          genuine("A", g + 3), genuine("A", g + 3, key="R1", label="wrong-key")], "event:no-rollover"))
+    return hs
+
+
 def gen_rollover_obs():
     """observation: a roll-over of the number WITHOUT a new key re-admits the previous epoch"""
     g = genuine("A", 2)
@@ -915,12 +1066,16 @@ Definition show_keys (c : ctrl) : list Z :=
   Z.of_nat (length c) :: flat_map (fun p => match p_key p with None => [0; 0] | Some n => [1; Z.of_N n] end) c.
 Definition show_step (o : Z) (fb : bool) (cl : list call) (c : ctrl) : list Z :=
   o :: Z.of_nat (length cl) :: flat_map show_call cl ++ show_sns c ++ show_psns c ++ [if fb then 1 else 0] ++ show_keys c.
-Fixpoint show_hist (c : ctrl) (h : list op) : list Z :=
+Fixpoint run_ops (c : ctrl) (l : list op) (last : Z * bool * list call) : ctrl * (Z * bool * list call) :=
+  match l with
+  | [] => (c, last)
+  | x :: r => let '(c', o, cl) := apply c x in
+              run_ops c' r (match x with OAdv _ => (show_o o, falls_back o, cl) | _ => (99, false, []) end)
+  end.
+Fixpoint show_hist (c : ctrl) (h : list (list op)) : list Z :=
   match h with
   | [] => []
-  | x :: r => let '(c', o, cl) := apply c x in
-              show_step (match x with OAdv _ => show_o o | _ => 99 end)
-                        (match x with OAdv _ => falls_back o | _ => false end) cl c' ++ show_hist c' r
+  | l :: r => let '(c', (o, fb, cl)) := run_ops c l (99, false, []) in show_step o fb cl c' ++ show_hist c' r
   end.
 Definition show_val (r : crashkind + value) : list Z :=
   match r with inl k => [0; show_ck k] | inr v => 1 :: show_v v end.
@@ -958,13 +1113,18 @@ def _xc_term(line):
                 body = "PShort [%s]" % ("" if b[1] == "-" else "; ".join("%d%%N" % int(x) for x in b[1].split(",")))
             else:
                 body = "PEmpty"
-            evs.append("OAdv (%s, %s)" % (_xc_bytes(f[1]), body))
+            evs.append("[OAdv (%s, %s)]" % (_xc_bytes(f[1]), body))
         elif f[0] == "X":
-            evs.append("ORestart")
+            evs.append("[ORestart]")
         elif f[0] == "K":
-            evs.append("OSetKey %s %d%%N" % (_xc_bytes(f[1]), int(f[2])))
+            evs.append("[OSetKey %s %d%%N]" % (_xc_bytes(f[1]), int(f[2])))
+        elif f[0] == "EB":
+            evs.append("event_begin %s %d%%N" % (_xc_bytes(f[1]), int(f[2])))
+        elif f[0] == "EE":
+            evs.append("event_end %s %d%%N %s" % (_xc_bytes(f[1]), int(f[2]),
+                                                 "ReqFail" if f[3] == "fail" else "(ReqOk %d%%N)" % int(f[3])))
         else:
-            evs.append("%s %s %d%%N" % ({"R": "OPlain", "O": "OPopulate", "U": "OUpdate"}[f[0]], _xc_bytes(f[1]), int(f[2])))
+            evs.append("[%s %s %d%%N]" % ({"R": "OPlain", "O": "OPopulate", "U": "OUpdate"}[f[0]], _xc_bytes(f[1]), int(f[2])))
     return "show_hist [%s] [%s]" % ("; ".join(ps), "; ".join(evs))
 
 
@@ -1013,7 +1173,7 @@ def xc_sample(hist_pairs, val_pairs, nhist=18, nval=10):
     for i, l, a in hp:
         feats = {"o:" + t.split("/")[0] for t in a.split(" ") if "/" in t}
         feats |= {"b:" + t.split(":")[2][0] for t in l.split(" ") if t.startswith("A:")}
-        feats |= {"e:" + t[0] for t in l.split(" ") if t[0] in "ROUXK"}
+        feats |= {"e:" + t.split(":")[0] for t in l.split(" ") if t[0] in "ROUXKE"}
         if feats - seen and len(picked) < nhist - 6:
             seen |= feats
             picked.append(i)
@@ -1078,7 +1238,7 @@ def run(ctx):
         hs = [(rp["world"], rp["events"], "replay")]
     else:
         hs = gen_core(tier) + gen_values(tier) + gen_flips(tier, rng(seed, "c18flip")) + gen_short(tier, rng(seed, "c18short")) \
-            + gen_random(tier, rng(seed, "c18rand")) + gen_ops(tier) + gen_keys(tier)
+            + gen_random(tier, rng(seed, "c18rand")) + gen_ops(tier) + gen_keys(tier) + gen_events(tier)
     plain = [] if ctx.get("replay") else gen_plain() + gen_rollover_obs()
     allh = hs + plain
     lines, model, impl = run_histories(drv, allh)
